@@ -24,8 +24,23 @@ def load():
                 for fm in re.finditer(r'\bfn (\w+)\s*[(<]', line): shims.add((cur, fm.group(1)))
         units[u] = dict(file=f, props=props, ext=ext, shims=shims)
     return units
+def edges():
+    e = []
+    try:
+        for line in open('/verif/contracts/listing_edges.txt'):
+            line = line.split('#')[0].strip()
+            if '<-' in line:
+                a, ps = line.split('<-'); e.append((a.strip(), ps.split()))
+    except FileNotFoundError:
+        pass
+    return e
 def missing(units):
     out = collections.defaultdict(dict)
+    for a, provers in edges():
+        for x in provers:
+            if a in units and x in units:
+                for p in units[a]['props']:
+                    if p not in units[x]['props']: out[x].setdefault(p, '%s assumes what %s proves (listing_edges.txt)' % (a, x))
     for x, xv in units.items():
         for u, uv in units.items():
             if u == x: continue
